@@ -120,6 +120,15 @@ def cases(draw):
             else:
                 factored.append({"add": ["pre" + m["name"] + "x"]})
                 multi = True
+    if draw(st.integers(0, 5)) == 0:
+        # a string macro whose body is a regex fragment with a top-level alternation, spliced into a longer name: inlining is
+        # textual (j@mre_ with @mre_ = e|ne is the name je|ne)
+        body = draw(st.sampled_from(["e|ne", "l|r", "a|b|c", "[lr]|x", "ov|ovl"]))
+        macros.append({"name": "@mre_", "pattern": body})
+        use = draw(st.sampled_from(["j@mre_", "m@mre_", "@mre_q", "s@mre_l"]))
+        factored.append(draw(st.sampled_from([use, {"mov": [use]}, {"mov": ["rax", use]}])))  # item and operand position (inside a key it is not a supported form)
+        multi = True
+        kinds = kinds + ["regex-substring"]
     in_file, files = split_definitions(draw, macros)
     return {"listing": L, "original": pattern, "factored": factored, "macros_in_file": in_file, "macro_files": files, "kinds": sorted(set(kinds)), "multi": multi}
 
